@@ -8,6 +8,87 @@ COMMON = ["the harness module replaces github.com/openconfig/gnmi with /repo's w
           "rapid v1.3.0 generators; every random choice is a function of VERIF_SEED"]
 
 CHECKS = {
+    "C20": dict(
+        engine="fakeprop",
+        technique=("property-based testing (rapid) of generated fake-target configurations: trace predicates over the emitted stream "
+                   "(order / repeat count / range-or-list membership / timestamp step / sync placement), same-seed and reused-config "
+                   "differential runs, observed both at UpdateQueue.Next and on an in-memory subscribe stream driven by fake/gnmi Client.Run"),
+        level_text=("Tens of thousands (quick) to 800 000 (thorough) generated configurations of 1-8 values of every kind "
+                    "(int/uint/double constant, uniform range, cumulative saturating range; int/uint/double/string/bool lists random or rotating; "
+                    "string-list constant/rotating/random; delete; explicit sync) with repeat 0 or 1-6, unset or set timestamps, zero / periodic / random / wide "
+                    "timestamp deltas, per-value and global seeds zero or not, disable_sync on/off. Every clause of the statement is a predicate evaluated on the "
+                    "full emitted sequence (complete for bounded configurations, a prefix of sum(repeats)+2..24 for unbounded ones): non-decreasing timestamps; "
+                    "exactly `repeat` emissions and then nothing (an unbounded value never lets the source end; in a prefix no value that still has emissions is "
+                    "overdue); every emitted range value inside [minimum,maximum], every generated list value an option; every per-value timestamp step inside "
+                    "[delta_min,delta_max]; on the wire the single sync marker follows the first emission of every value (none with disable_sync); two generators "
+                    "from deep-equal configurations emit proto.Equal sequences whenever every value's random source has a configured non-zero seed; the caller's "
+                    "configuration is structurally unchanged (up to the unset->empty timestamp block) and a second generator built from the same object emits the "
+                    "same sequence. Sensitivity: 18 of 19 seeded mutants (ordering x3, repeat x2, clamp x4, step x2, sync x2, seeding x3, config aliasing, list) "
+                    "are reported within 75 cases; the 19th only reorders values that share one timestamp, which no clause of the statement forbids. "
+                    "Bounded exploration: no claim beyond the generated space."),
+        level_note=("trusts the 300-line judge (unit-checked on hand-made traces) and the in-memory stream double (context + Send/Recv only, no gRPC); "
+                    "cases run inside a testing/synctest bubble so that a generator seeding itself from time.Now() is replayable; "
+                    "FixedQueue / fixed generator is not judged (its order is whatever the configuration lists); real delays (enable_delay) are not exercised"),
+        rule=("cases are fake-target configurations (1-8 values, distinct paths) run through queue.New(false, seed, values) three times (fresh, deep-equal copy, "
+              "reused object) and once through fake/gnmi Client.Run on an in-memory stream; a configuration is judged iff it satisfies every precondition "
+              "fake.proto documents and Next never returned an error (about 1 case in 8 deliberately violates a precondition: it must be answered by an error or "
+              "be left unexamined, never by a panic, and an error on a configuration without any violated precondition is itself a violation); "
+              "non-trivial = judged, >=3 values of >=2 kinds (oneof arms), two different values whose emitted timestamp intervals intersect, and at least one "
+              "value with bounded repeat > 1; distinct = distinct hash of the scenario"),
+        assumptions=COMMON + [
+            "all magnitudes (timestamps, timestamp deltas, int/uint range bounds and value deltas) lie within +-2^40, double range bounds within +-1e12: the generator's arithmetic is int64 "
+            "and wider spans overflow (outside this domain, confirmed by hand: a uint range without deltas and maximum >= 2^63, an int range without deltas wider than 2^63-2, "
+            "and a timestamp delta span of 2^63-1 panic in rand.Int63n; a double range -Inf..+Inf emits NaN)",
+            "values rejected by the generator's own checks (negative timestamp or negative timestamp delta with repeat != 1, inverted bounds, initial value outside its range, empty option list, no kind) "
+            "count as cleanly rejected, not as violations",
+            "the first emission of a list value is the configured initial `value` (documented as 'only used to hold the value as it mutates') and need not be an option; membership is demanded from the second emission on",
+            "for string-list values 'within the option list' means every element is one of the options (fake.proto: 'the set of strings which can be used')",
+            "reproducibility is demanded when every value has a configured non-zero seed of its own or else the global seed is non-zero (fake.proto: repeatable 'if the seed is set in the corresponding Value')",
+            "explicit sync values are only configured together with disable_sync (how every caller in the repository uses them), so with auto-sync every sync response is the injected marker",
+            "order inside one timestamp is unconstrained (the statement only demands non-decreasing timestamps); starvation by an unbounded value with a zero timestamp delta is inherent in timestamp order and not judged",
+        ],
+        parts=[
+            dict(name="random", run="TestC20Random", checks=dict(quick=10000, thorough=50000), shards=dict(quick=1, thorough=16)),
+        ],
+    ),
+    "C19": dict(
+        engine="pathvalprop",
+        technique=("property-based testing (rapid) against an independent reference index written from the documentation, "
+                   "repetition against map-order randomisation, client->wire->server and scalar round trips, "
+                   "relational oracle (total / symmetric / sound) for value.Equal; same oracles behind native fuzz targets on wire bytes"),
+        level_text=("Tens of thousands of generated gNMI paths (elem and deprecated element form, 0-6 elements, 0-4 keys each, arbitrary valid UTF-8 "
+                    "incl. empty strings, '/', '*', '[') are indexed 64 times per build in five builds of the same path (keys inserted forward, reversed, rotated; "
+                    "proto.Clone; marshal+unmarshal) and compared with a reference index computed from plain data without any Go map; CompletePath is compared "
+                    "with the documented origin rules over all four origin combinations x prefix with/without elements; client queries of plain elements are "
+                    "taken through gnmi client ToSubscribeRequest, proto.Marshal/Unmarshal and the server's path.CompletePath; every supported Go scalar type "
+                    "(extreme ints, NaN/Inf/-0, invalid UTF-8, nested []interface{}) and a dozen unsupported types go through FromScalar/ToScalar; pairs of "
+                    "TypedValues over every oneof arm, unset and nil (second = clone, single-field mutation, arm switch, independent) are checked for "
+                    "no panic, Equal(a,b)==Equal(b,a) and Equal => same value. Bounded random exploration, not a proof."),
+        level_note=("trusts the 40-line reference index (refIndexSpec), the arm-wise 'same value' relation (sameValue: same arm and equal payload, floats and "
+                    "decimals compared numerically so that +0/-0 and 10e-1/1e0 may be equal) and protobuf-go; Equal answering false for identical values "
+                    "(JSON/any/ascii/proto_bytes, NaN, unset) is allowed by the property; FromScalar([]string) with invalid UTF-8 is accepted either way "
+                    "(the statement does not decide it); native fuzzing runs without coverage guidance because the driver builds without -fuzz"),
+        rule=("cases are: index = one generated path indexed with prefix=false/true, 64 repetitions per build x 5 equal builds; complete = one prefix/path pair; "
+              "query = a client query of 1-3 paths of 0-5 plain elements; scalar = one Go value; equal = one ordered pair of TypedValues (nil allowed). "
+              "non-trivial = (index, complete, fuzz-path) some elem carries >=2 keys whose name order differs from their insertion order; "
+              "(query) some element contains '/'; (scalar) the value needs widening, is a slice, or must be rejected; "
+              "(equal) the operands differ in exactly one field; (fuzz-value) two non-nil operands of the same arm that are different values. "
+              "distinct = distinct hash of the scenario, per part"),
+        assumptions=COMMON + [
+            "strings inside gnmi.Path / TypedValue string fields are valid UTF-8 (protobuf refuses to marshal anything else)",
+            "operands of value.Equal are wire-representable (every operand is passed through Marshal/Unmarshal) or nil; nil elements inside a leaf-list are not generated",
+            "plain query element = non-empty valid UTF-8 without whitespace and without any of [ ] \\ ; '/' allowed anywhere",
+            "open-finding classes compiled into the engine: 'equal-nil-double' (one operand nil, the other a double_val) and 'query-elem-edge-slash' "
+            "(the last element of a query path ends with '/'); each is excluded and probed only while known_findings.json lists it as open for C19",
+        ],
+        parts=[
+            dict(name="index", run="TestC19Index", checks=dict(quick=15000, thorough=100000), shards=dict(quick=1, thorough=8)),
+            dict(name="complete", run="TestC19Complete", checks=dict(quick=15000, thorough=100000), shards=dict(quick=1, thorough=8)),
+            dict(name="query", run="TestC19Query", checks=dict(quick=20000, thorough=200000), shards=dict(quick=1, thorough=8)),
+            dict(name="scalar", run="TestC19Scalar", checks=dict(quick=20000, thorough=200000), shards=dict(quick=1, thorough=8)),
+            dict(name="equal", run="TestC19Equal", checks=dict(quick=30000, thorough=200000), shards=dict(quick=1, thorough=8)),
+        ],
+    ),
     "C06": dict(
         engine="matchprop",
         technique=("exhaustive small-scope enumeration of the (subscription path, update path) relation and of ctree.Query containment, "
